@@ -248,17 +248,24 @@ where
 
         // A session spawned while its socket closes (or the context terminates) subscribed to
         // the bus too late for the event: both set their flag before publishing it.
-        if !self.socket_logic.core().is_running()
-          || self
-            .actor_config
-            .context
-            .inner()
-            .shutdown_initiated
-            .load(Ordering::Acquire)
+        if self.linger_until.is_none()
+          && (!self.socket_logic.core().is_running()
+            || self
+              .actor_config
+              .context
+              .inner()
+              .shutdown_initiated
+              .load(Ordering::Acquire))
         {
-          self.transition_to_shutdown_stream(None).await;
-          break 'handshake;
+          self.on_parent_closing().await;
+          continue 'handshake;
         }
+        // While the socket lingers the handshake goes on: messages accepted for this
+        // connection are waiting in its pipe. The linger period bounds it.
+        let hs_deadline = match self.linger_until {
+          Some(Some(t)) if t < hs_deadline => t,
+          _ => hs_deadline,
+        };
 
         // The mailbox is left alone until the handshake is over, but a closing socket or a
         // terminating context must not have to wait for a peer that never answers.
@@ -283,6 +290,11 @@ where
         };
 
         match read_result {
+          Err(_elapsed) if matches!(self.linger_until, Some(Some(t)) if TokioInstant::now() >= t) => {
+            // the socket's linger period is over
+            self.transition_to_shutdown_stream(None).await;
+            break 'handshake;
+          }
           Err(_elapsed) => {
             tracing::warn!(
               sca_handle = self.handle,
@@ -967,14 +979,10 @@ where
     }
   }
 
-  /// The owning socket is closing. With LINGER 0, or before the connection carries traffic,
-  /// the stream is shut down at once; otherwise the session keeps writing what the socket
+  /// The owning socket is closing. With LINGER 0 the stream is shut down at once; otherwise
+  /// the session keeps going - finishing the handshake if need be - and writes what the socket
   /// accepted until the socket sends Stop or the linger period ends.
   async fn on_parent_closing(&mut self) {
-    if self.current_phase != ConnectionPhaseX::Operational {
-      self.transition_to_shutdown_stream(None).await;
-      return;
-    }
     let linger = self.socket_logic.core().core_state.read().options.linger;
     crate::verif_event!(
       "sess.closing",
